@@ -122,6 +122,8 @@ def gen_case(rng):
             kind = 'tup'
         else:
             ops.append(['buffer', rng.choice([1, 2, 5])])
+    if rng.random() < 0.12:
+        ops.append(['rate_limit', rng.choice([0.03, 0.05])])
     if not two and rng.random() < 0.15:
         # per-element chains decoupled by a buffer in front of gather(): only the references the nodes pass on keep an input
         # from being signalled complete while its result is still on its way
@@ -144,6 +146,9 @@ def gen_case(rng):
             'fanout': rng.choice([1, 1, 1, 2, 3])}      # how many consumers hang off the end of the segment (off gather())
 
 
+RL_TIMES = []
+
+
 class Got(list):
     """results in the order in which the consumer finished with them; .called: in the order in which it was handed them;
     .timeline: consumer completions ('DONE') and completion signals of the inputs (('T', uid)) in the order they happened"""
@@ -151,6 +156,8 @@ class Got(list):
         super().__init__()
         self.called = []
         self.timeline = []
+        self.after_emit = []        # how many consumer calls had finished when the k-th awaited emit returned
+        self.times = []             # when each consumer call was made (real time)
 
     def append(self, x):
         self.timeline.append('DONE')
@@ -165,11 +172,13 @@ def make_sink(case, got):
     if case.get('sink', 'sync') == 'sync':
         def plain(x):
             got.called.append(x)
+            got.times.append(time.time())
             got.append(x)
         return plain
 
     def consume(x):
         got.called.append(x)        # the sequence of results AT the sink: the order of the calls
+        got.times.append(time.time())
 
         async def body():
             await asyncio.sleep((4 - F.fsum(x) % 5) / 1000.0 if F.fsum(x) % 5 < 4 else 0)
@@ -220,6 +229,16 @@ def build(case, dask, sink):
             node = node.sliding_window(op[1], return_partial=op[2])
         elif op[0] == 'buffer':
             node = node.buffer(op[1])
+        elif op[0] == 'rate_limit':
+            node = node.rate_limit(op[1])
+            if dask:
+                # when the node hands an element on (the sink behind gather() sees it a varying task latency later)
+                a.rl_times = []
+
+                def timed_emit(x, metadata=None, _orig=node._emit, _t=a.rl_times):
+                    _t.append(time.time())
+                    return _orig(x, metadata=metadata)
+                node._emit = timed_emit
     if dask:
         node = node.gather()
     node.sink(sink)
@@ -244,6 +263,7 @@ async def run_local(case):
         ref = ProbeRef('l%d' % k, got, IOLoop.current())
         refs.append(ref)
         await (a if e == 0 else b).emit(v, metadata=[{'ref': ref}])
+        got.after_emit.append(len(got))
     n = -1
     while n != len(got):            # buffers drain on the loop: wait until nothing more arrives
         n = len(got)
@@ -290,6 +310,8 @@ def _build_local_async(case, sink):
             node = node.sliding_window(op[1], return_partial=op[2])
         elif op[0] == 'buffer':
             node = node.buffer(op[1])
+        elif op[0] == 'rate_limit':
+            node = node.rate_limit(op[1])
     node.sink(sink)
     for _ in range(case.get('fanout', 1) - 1):
         node.sink(sink)
@@ -300,11 +322,16 @@ async def run_dask(case, expect_n, patient=False, expect_counts=None):
     from tornado.ioloop import IOLoop
     got = Got()
     a, b = build(case, True, make_sink(case, got))
+    got.rl_times = getattr(a, 'rl_times', [])
+    if got.rl_times is not None and any(op[0] == 'rate_limit' for op in case['ops']):
+        # the first elements arrive as a burst on a line that has been idle for longer than the interval
+        await asyncio.sleep(max(op[1] for op in case['ops'] if op[0] == 'rate_limit') + 0.03)
     refs = []
     for k, (e, v) in enumerate(case['inputs']):
         ref = ProbeRef('d%d' % k, got, IOLoop.current())
         refs.append(ref)
         await (a if e == 0 else b).emit(v, metadata=[{'ref': ref}])
+        got.after_emit.append(len(got))
     t0 = t_last = time.time()
     n_last = len(got)
     while len(got) < expect_n and time.time() - t0 < 20 and (patient or time.time() - t_last < 4):
@@ -395,6 +422,25 @@ async def shard_main(seed, tier, shard, out):
                                                       'what': 'dask twin: the completion signal of input %d was given when only %d of the '
                                                               'consumer calls had finished (%d needed); ops %s' % (k_in, done, (k_in + 1) * fan, case['ops'])})
                             break
+            if ln == dn and not any(op[0] in ('buffer', 'rate_limit') for op in case['ops']):
+                # nothing decouples the producer from the consumer: when an awaited emit returns, the consumer has finished with
+                # what that input gave rise to -- as many calls as in the local twin at the same point
+                C['awaited_emits_compared_for_completed_consumer_calls'] = C.get('awaited_emits_compared_for_completed_consumer_calls', 0) + len(lgot.after_emit)
+                if lgot.after_emit != dgot.after_emit:
+                    k_bad = next(i for i, (x_, y_) in enumerate(zip(lgot.after_emit, dgot.after_emit)) if x_ != y_)
+                    out['violations'].append({'key': 'C20:emit-returned-before-the-consumer-had-finished@dask', 'case': case,
+                                              'what': 'finished consumer calls after each awaited emit: local %s, dask %s (first difference at '
+                                                      'input %d); ops %s' % (lgot.after_emit, dgot.after_emit, k_bad, case['ops'])})
+            rl = [op[1] for op in case['ops'] if op[0] == 'rate_limit']
+            RL_TIMES = getattr(dgot, 'rl_times', [])
+            if rl and len(RL_TIMES) >= 2:
+                # consecutive elements leave the Dask rate limiter at least an interval apart (a lower bound only: load can
+                # stretch gaps, never shrink them)
+                gaps = [b_ - a_ for a_, b_ in zip(RL_TIMES, RL_TIMES[1:])]
+                C['dask_rate_limit_gaps_checked'] = C.get('dask_rate_limit_gaps_checked', 0) + len(gaps)
+                if gaps and min(gaps) < rl[-1] - 0.008:
+                    out['violations'].append({'key': 'C20:spacing@dask-rate_limit', 'case': case,
+                                              'what': 'interval %s s, gaps between consecutive deliveries %s' % (rl[-1], [round(g_, 4) for g_ in gaps])})
             if len(lgot) >= 3:
                 out['keys'].append(progs.prog_key(case, None))
             if case.get('sink') == 'coro':
